@@ -201,7 +201,12 @@ func (c *Cluster) nonBabblingStep(s *Step) {
 		resp := &net.SyncResponse{}
 		err = c.net.deliver(t, "sync", &net.SyncRequest{FromID: fromID, Known: known, SyncLimit: limit}, resp)
 		if st == _state.Suspended && readable {
-			if err != nil {
+			if err != nil && t.ffDone && strings.Contains(err.Error(), "Too Late") {
+				// the requester lacks events from below the frame the node was reset to:
+				// a reset node cannot serve those, suspended or not - the other face of
+				// the open finding about reset nodes serving syncs
+				c.violate("C17", "suspended-serves-sync", "reset-node-serves-frame-events-without-wire-info", "suspended node %d (reset by fast-sync) cannot answer a requester that lacks events from below its frame: %v", t.idx, err)
+			} else if err != nil {
 				c.violate("C17", "suspended-serves-sync", "suspended-node-refused-sync", "suspended node %d answered a SyncRequest with an error: %v", t.idx, err)
 			} else {
 				c.checkSyncResponse(t, known, limit, resp)
